@@ -29,11 +29,13 @@ from sourmash import MinHash, SourmashSignature, save_signatures, load_file_as_s
 U64 = 2 ** 64
 
 
-def make_sigs(rng, n, ksize, hard=0.0, unnamed_first=False):
+def make_sigs(rng, n, ksize, hard=0.0, unnamed_first=False, rich=False):
     scaleds = rng.choice([[1], [2], [10], [1, 2, 4], [10, 100]])
+    if rich:
+        scaleds = [1]               # big, pairwise different overlaps: a permuted label set cannot hide behind equal cells
     top = max(scaleds)
     lo = int(U64 / top) - 1
-    pool = [rng.randrange(1, lo) for _ in range(rng.choice([8, 40, 300]))]
+    pool = [rng.randrange(1, lo) for _ in range(300 if rich else rng.choice([8, 40, 300]))]
     track_all = rng.random() < 0.4
     sigs = []
     for i in range(n):
@@ -154,7 +156,7 @@ def main():
             n = rng.randint(10, 14)
         ksize = rng.choice([21, 31])
         sigs = make_sigs(rng, n, ksize, hard=0.7 if labels_only else (0.5 if rng.random() < 0.25 else 0.0),
-                         unnamed_first=labels_only or many_only or rng.random() < 0.5)
+                         unnamed_first=labels_only or many_only or rng.random() < 0.5, rich=many_only)
         files = []
         for i, s in enumerate(sigs):
             p = os.path.join(td, f"r{run}_{i}.sig")
@@ -172,6 +174,10 @@ def main():
             sched = [("sim", False, False, 2, True, None), ("containment", True, False, None, False, 20), ("avg", False, False, None, False, None),
                      ("sim", True, True, 3, False, None), ("max", True, False, None, True, 200)]
             mode, ani, ia, procs, dist, scaled_opt = sched[(run + seed + (2 if many_only else 0)) % len(sched)]
+            if many_only:
+                # the two-digit sort_order run: a plain similarity matrix of distinct values (ANI of small sketches is
+                # withheld -> 0.0 everywhere, and a wrong label order would be invisible)
+                mode, ani, ia, scaled_opt = "sim", False, False, None
             if labels_only and run == 0:
                 dist = True                 # every quick run saves at least one distance matrix
         desc = f"mode={mode} ani={ani} ignore_abundance={ia} -p {procs} distance={dist} --scaled {scaled_opt} n={n} k={ksize}"
